@@ -157,6 +157,18 @@ fn parse_args(args: &[&str]) -> Result<ParsedInfo, Box<dyn Error>> {
     })
 }
 
+/// The device a path lives on, if it can be told.
+#[cfg(unix)]
+fn device_of(path: &Path) -> Option<u64> {
+    use std::os::unix::fs::MetadataExt;
+    path.metadata().ok().map(|m| m.dev())
+}
+
+#[cfg(not(unix))]
+fn device_of(_path: &Path) -> Option<u64> {
+    None
+}
+
 fn process_dir(
     dir: &str,
     config: &Config,
@@ -191,6 +203,8 @@ fn process_dir(
     // held back until the walk below it is over.
     let mut deferred_root: Option<WalkEntry> = None;
     let mut walk_done = false;
+    // The file system of the starting point (for -xdev).
+    let root_device = device_of(Path::new(dir));
     loop {
         let next = match it.next() {
             Some(result) => WalkEntry::from_walkdir(result, config.follow)
@@ -242,7 +256,14 @@ fn process_dir(
                 // Under -depth the directory has already been left by the time it is
                 // evaluated, so there is nothing to skip (and skip_current_dir() would
                 // pop its parent instead).
-                if matcher_io.should_skip_current_dir() && !config.depth_first {
+                // Nor is there anything to skip for a directory on another file system
+                // under -xdev: walkdir yields it without descending into it.
+                if matcher_io.should_skip_current_dir()
+                    && !config.depth_first
+                    && !(config.same_file_system
+                        && entry.depth() > 0
+                        && device_of(entry.path()) != root_device)
+                {
                     it.skip_current_dir();
                 }
             }
